@@ -19,11 +19,11 @@ PASS = {
     "Option::<T>::unwrap": (0,), "Option::<T>::expect": (0,), "Option::<T>::take": (0,), "Option::<&T>::cloned": (0,), "Option::<&T>::copied": (0,),
     "Option::<T>::as_ref": (0,), "Option::<T>::as_deref": (0,), "Option::<T>::unwrap_or_default": (0,), "Option::<T>::ok_or": (0,),
     "Option::<T>::ok_or_else": (0,), "Option::<T>::flatten": (0,), "Option::<Option<T>>::flatten": (0,),
-    "bool::then_some": (1,), "Clone>::clone": (0,), "From<T>>::from": (0,), "Into<U>>::into": (0,), "ToOwned>::to_owned": (0,),
+    "bool::then_some": (1,), "<impl bool>::then_some": (1,), "Clone>::clone": (0,), "From<T>>::from": (0,), "Into<U>>::into": (0,), "ToOwned>::to_owned": (0,),
     "Result::<T, E>::ok": (0,), "Result::<T, E>::unwrap_or": (0, 1), "Try>::branch": (0,), "Result::<T, E>::unwrap": (0,),
 }
 APPLY = {   # (payload argument or None, function argument)
-    "Option::<T>::map": (0, 1), "Option::<T>::and_then": (0, 1), "bool::then": (None, 1), "Option::<T>::or_else": (0, 1),
+    "Option::<T>::map": (0, 1), "Option::<T>::and_then": (0, 1), "bool::then": (None, 1), "<impl bool>::then": (None, 1), "Option::<T>::or_else": (0, 1),
     "Option::<T>::unwrap_or_else": (0, 1), "Option::<T>::map_or": (1, 2), "Option::<T>::map_or_else": (None, 2),
     "Option::<T>::get_or_insert_with": (0, 1), "Option::<T>::filter_map": (0, 1),
 }
